@@ -331,8 +331,8 @@ func (g *rgen) value(depth int) {
 func tokGen(n int) {
 	r := rand.New(rand.NewSource(seed()))
 	for i := 0; i < n; i++ {
-		// texts beyond 4096 bytes are expensive for TLC (4 kB payloads in every state): one in the quick tier, one in 40 otherwise
-		g := &rgen{r: r, big: i%40 == 39 && (i == 39 || os.Getenv("VERIF_TIER") == "thorough")}
+		// texts beyond 4096 bytes are expensive for TLC (4 kB payloads in every state): one in the quick tier, one in 200 otherwise
+		g := &rgen{r: r, big: i == 39 || (i%200 == 39 && os.Getenv("VERIF_TIER") == "thorough")}
 		if r.Intn(25) == 0 {
 			g.b = append(g.b, 0xEF, 0xBB, 0xBF)
 		}
